@@ -47,7 +47,7 @@ MANIFEST = dict(
 )
 
 IMPORTS = ['Coq.Lists.List', 'Coq.NArith.NArith', 'SV.Fmt.VpkDir', 'SV.SM.Vpk', 'SV.Fmt.VpkArchName', 'SV.SM.VpkCorr', 'SV.Gen.VpkPlace_gen',
-           'SV.Gen.VpkArchName_gen', 'SV.Fmt.VpkNullStr', 'SV.Gen.VpkNullStr_gen', 'SV.SM.VpkNested', 'SV.Gen.VpkNested_gen', 'SV.SM.VpkApi', 'SV.Gen.VpkApi_gen']
+           'SV.Gen.VpkArchName_gen', 'SV.Fmt.VpkNullStr', 'SV.Gen.VpkNullStr_gen', 'SV.SM.VpkNested', 'SV.Gen.VpkNested_gen', 'SV.SM.VpkApi', 'SV.Gen.VpkApi_gen', 'SV.SM.VpkNestedMap']
 PRE = 'Import ListNotations. Open Scope N_scope.\n'
 
 R_OK, R_RO, R_EXISTS, R_MISSING, R_BADNAME, R_BADIDX, R_BADDIR, R_EXC = 0, 1, 2, 3, 4, 5, 6, 9
@@ -1225,6 +1225,53 @@ def corr_nested(ck: Ck) -> None:
     if bad:
         ck.tie_broken.append('correspondence VPK nested dicts (SM/VpkNested.v vs VPK.__delitem__)')
         ck.extra['nested_disagreement'] = {'literal': lits[bad[0]][:1500]}
+    # new_file and del mixed, from an empty archive: SM/VpkNestedMap.v nrun over the translated get-or-create descriptions and clean-up
+    lits2 = []
+    d = tempfile.mkdtemp(prefix='c13t_', dir=os.environ.get('VERIF_SCRATCH', '/var/tmp'))
+    rk = lambda: (rng.choice(dirs), rng.choice(stems), rng.choice(exts))
+    try:
+        for j in range(n):
+            v = VPK(os.path.join(d, 'm.vpk'), mode='w')
+            ops, oks = [], []
+            for _ in range(rng.choice([2, 4, 8, 14])):
+                k = rk()
+                if rng.random() < 0.65:
+                    ops.append(f'NIns {c_key(k)}')
+                    try:
+                        v.new_file(k)
+                        oks.append(True)
+                    except (FileExistsError, KeyError):
+                        oks.append(False)
+                else:
+                    ops.append(f'NDel {c_key(k)}')
+                    try:
+                        del v[k]
+                        oks.append(True)
+                    except KeyError:
+                        oks.append(False)
+            probes = [(k, k in v) for k in (rk() for _ in range(4))]
+            lits2.append(f'({coq_list(ops)}, {coq_list("true" if o else "false" for o in oks)}, {shape(v)}, '
+                         + coq_list(f'({c_key(k)}, {"true" if b else "false"})' for k, b in probes) + ')')
+            ck.count('corr_nested_histories')
+            ck.hist('nested_history', f'{len(ops)} operations, {len(v)} files at the end' if len(ops) <= 4 else f'{len(ops)} operations')
+            if len(v) and not all(oks):
+                ck.seen(('nm', tuple(ops)))
+    finally:
+        shutil.rmtree(d, ignore_errors=True)
+    vals = ck.coq_eval(IMPORTS, ['bad_idx (fun c : list nop * list bool * shape_t * list (key * bool) => let \'(ops, oks, a, pr) := c in '
+                                 'check_nrun g_ins_ext g_ins_dir g_ins_exists_check g_del_prog ops oks a pr) 0 ' + coq_list(lits2)], name='vpknestedmap', preamble=PRE)
+    if vals is None:
+        ck.obligation('correspondence:nested-map', False, 'model could not be evaluated')
+        ck.tie_broken.append('correspondence VPK nested map: model evaluation failed')
+        return
+    bad = parse_coq_N_list(vals[0])
+    ck.obligation('correspondence:nested-map', not bad,
+                  f'{len(lits2)} sequences of 2..14 new_file/del from an empty archive: SM/VpkNestedMap.v nrun (translated get-or-create steps of new_file, '
+                  f'clean-up of __delitem__) vs the implementation (which calls raise, keys at all three levels in dict order, 4 membership probes each): '
+                  f'{len(bad)} disagreements')
+    if bad:
+        ck.tie_broken.append('correspondence VPK nested map (SM/VpkNestedMap.v vs VPK.new_file/__delitem__/__contains__)')
+        ck.extra['nested_map_disagreement'] = {'literal': lits2[bad[0]][:1500]}
 
 
 # ------------------------------------------------------------------------------------------------ archive file names
@@ -1392,6 +1439,10 @@ def run(ck: Ck) -> None:
             'del_checks_writable_before_touching': 'g_del_checks_writable_first',
             'del_missing_file_raises_keyerror': 'g_del_keyerror',
             'nested_dicts_indexed_ext_folder_name_everywhere': 'g_nest_order_ext_folder_name',
+            # premises of c13_nested_map_lookup_after_new_file
+            'new_file_reuses_or_creates_the_extension_dict': 'goc_ok g_ins_ext',
+            'new_file_reuses_or_creates_the_folder_dict': 'goc_ok g_ins_dir',
+            'new_file_rejects_an_existing_name': 'g_ins_exists_check',
             # API around the state machine (Gen/VpkApi_gen.v): premises of c13_api_refines_map / c13_with_block_saves, guards, listing walks
             'exit_saves_iff_no_exception_and_writable': 'exit_table_ok g_exit_table',
             'open_mode_writable_is_w_and_a': 'mode_table_ok g_writable_r g_writable_w g_writable_a',
@@ -1435,6 +1486,7 @@ def run(ck: Ck) -> None:
         # a concrete failing history on the implementation explains a broken format/site obligation or correspondence
         ck.explain('correspondence:')
         ck.explain('instance:')
+        ck.explain('translate:')
 
 
 def replay(data: dict) -> int:
